@@ -81,7 +81,7 @@ def calc_surface_energy(asig, travel_times, nodal=True, up_red=1., down_red=1., 
         travel_times = np.array(travel_times)
     shifts = 2 * travel_times / asig.dt
     max_shift = int(np.max(shifts))
-    up_wave = np.pad(asig.values, (0, max_shift), mode='constant', constant_values=0)
+    up_wave = np.pad(np.asarray(asig.values, dtype=float), (0, max_shift), mode='constant', constant_values=0)
     dshifted = np.arange(asig.npts + max_shift)[np.newaxis, :] - shifts[:, np.newaxis]  # TODO: not needed if shifts is scalar
     down_waves = np.interp(dshifted, np.arange(asig.npts), asig.values, left=0, right=0)
     if hasattr(up_red, '__len__'):
@@ -192,7 +192,7 @@ def get_time_shift_motions(asig, travel_times, nodal=True, up_red=1., down_red=1
         travel_times = np.array(travel_times)
     shifts = 2 * travel_times / asig.dt
     max_shift = int(np.max(shifts))
-    up_wave = np.pad(asig.values, (0, max_shift), mode='constant', constant_values=0)
+    up_wave = np.pad(np.asarray(asig.values, dtype=float), (0, max_shift), mode='constant', constant_values=0)
     dshifted = np.arange(asig.npts + max_shift)[np.newaxis, :] - shifts[:, np.newaxis]  # TODO: not needed if shifts is scalar
     down_waves = np.interp(dshifted, np.arange(asig.npts), asig.values, left=0, right=0)
     if hasattr(up_red, '__len__'):
